@@ -320,7 +320,7 @@ Proof.
     + right. cbn [sp repeat app]. eexists; eexists. split; [reflexivity|left; reflexivity].
 Qed.
 
-Lemma lexs_items : forall l, Forall wf_item (map fst l) ->
+Lemma lexs_items : forall (l : list (sitem * nat)), Forall wf_item (map fst l) ->
   lexs (print_items l) = concat (map (fun p => tokens_item (fst p)) l).
 Proof.
   induction l as [|[it n] l IH]; intros Hwf; [reflexivity|].
@@ -370,11 +370,12 @@ Proof.
   intros [tn td ts] ((Htn0 & Htn) & Hd & _). cbn [t_name t_delim t_sub dpart_of] in *.
   destruct tn as [|t0 tn']; [congruence|]. cbn [app type_and_delim].
   pose proof Htn as Htn'. cbn in Htn'. apply andb_prop in Htn'. destruct Htn' as (Ht0 & _). rewrite Ht0.
-  destruct td as [d|].
+  destruct td as [d|]; unfold dpart_of; cbn [t_delim].
   - destruct Hd as (Hdw & _ & _). rewrite app_comm_cons.
     rewrite (span_word_app (t0 :: tn') [40; d; 41] Htn); [|right; eexists; eexists; split; reflexivity].
     rewrite Hdw. reflexivity.
-  - rewrite app_nil_r. rewrite <- (app_nil_r (t0 :: tn')) at 1. rewrite (span_word_app (t0 :: tn') [] Htn); [reflexivity|left; reflexivity].
+  - rewrite app_nil_r. pose proof (span_word_app (t0 :: tn') [] Htn (or_introl eq_refl)) as Hsw. rewrite app_nil_r in Hsw.
+    rewrite Hsw. reflexivity.
 Qed.
 
 Lemma compile_body : forall name ty spec its acc n1 n2 o,
@@ -433,7 +434,7 @@ Proof.
   - rewrite (compile_body name ty _ _ acc n1 n2 None Hwf). destruct ty; reflexivity.
 Qed.
 
-Lemma compile_tokens : forall l acc, Forall wf_item (map fst l) ->
+Lemma compile_tokens : forall (l : list (sitem * nat)) acc, Forall wf_item (map fst l) ->
   compile_items (concat (map (fun p => tokens_item (fst p)) l)) None acc = SigOk (rev acc ++ map (fun p => arg_of_item (fst p)) l).
 Proof.
   induction l as [|[it n] l IH]; intros acc Hwf.
@@ -443,7 +444,7 @@ Proof.
 Qed.
 
 (* M4 *)
-Theorem compile_print_sig : forall lead l, Forall wf_item (map fst l) ->
+Theorem compile_print_sig : forall lead (l : list (sitem * nat)), Forall wf_item (map fst l) ->
   compile_sig (print_sig lead l) = SigOk (map (fun p => arg_of_item (fst p)) l).
 Proof.
   intros lead l Hwf. unfold compile_sig, print_sig.
